@@ -326,7 +326,28 @@ func genSam(r *RNG, disjoint bool, maxIns int) samCase {
 			nrec = r.Range(2, 3)
 		}
 		var recs []samRec
-		if L >= 10 && (r.Chance(1, 5) || (genSamOverlapOften && r.Bool())) {
+		if genSamOverlapOften && maxIns >= 2 && L >= 40 && r.Chance(1, 2) {
+			// three records: the second overlaps the end of the first by two bases and carries a short insertion inside
+			// that overlap and a longer one further right; the third starts after the second. Every row has to receive
+			// both insertions' gap columns, the longer one into rows that already hold the shorter
+			a := r.Range(12, L/2-4)
+			k1 := 1
+			k2 := r.Range(2, min(maxIns, 4))
+			m1 := r.Range(6, L/2-8)
+			e2 := min(L-6, a-1+1+m1+r.Range(4, 10)) // reference end (exclusive, 0-based) of the second record
+			m2 := e2 - (a - 1) - 1 - m1
+			if m2 >= 2 {
+				recs = append(recs,
+					samRec{name: name, flag: 0, pos: 1, cigar: fmt.Sprintf("%dM%dH", a+1, L-a-1), seq: tmpl[:a+1]}, // one base beyond the insertion site
+					samRec{name: name, flag: 2048, pos: a, cigar: fmt.Sprintf("%dH1M%dI%dM%dI%dM", a-1, k1, m1, k2, m2),
+						seq: tmpl[a-1:a] + randSeq(r, k1, symACGT, false) + tmpl[a:a+m1] + randSeq(r, k2, symACGT, false) + tmpl[a+m1:e2]},
+					samRec{name: name, flag: 2048, pos: e2 + 1, cigar: fmt.Sprintf("%dH%dM", e2, L-e2), seq: tmpl[e2:]})
+				sc.tags["multi-record"] = true
+				sc.tags["three-records-short-insertion-in-overlap"] = true
+			}
+		}
+		if len(recs) > 0 {
+		} else if L >= 10 && (r.Chance(1, 5) || (genSamOverlapOften && r.Bool())) {
 			// one alignment cut into overlapping, agreeing records (each insertion carried by exactly one of them)
 			st := r.Range(0, L/3)
 			if r.Bool() {
@@ -561,7 +582,7 @@ func execToma(r *RNG, c *Case) {
 	}
 	res := safeRun(30*time.Second, func() (string, error) {
 		var out bytes.Buffer
-		err := sam.ToMultiAlign(strings.NewReader(txt), &out, atoi(c.Get("wrap")), atoi(c.Get("start")), atoi(c.Get("end")), c.Get("pad") == "1", atoi(c.Get("threads")))
+		err := sam.ToMultiAlign(textReader(c.ID, txt), &out, atoi(c.Get("wrap")), atoi(c.Get("start")), atoi(c.Get("end")), c.Get("pad") == "1", atoi(c.Get("threads")))
 		return out.String(), err
 	})
 	c.Set("go", goField(res))
@@ -734,7 +755,7 @@ func execTopa(r *RNG, c *Case) {
 	}
 	c.Set("dirmode", "1")
 	res := safeRun(30*time.Second, func() (string, error) {
-		err := sam.ToPairAlign(strings.NewReader(txt), strings.NewReader(refTxt), dir, atoi(c.Get("wrap")), atoi(c.Get("start")), atoi(c.Get("end")),
+		err := sam.ToPairAlign(textReader(c.ID, txt), strings.NewReader(refTxt), dir, atoi(c.Get("wrap")), atoi(c.Get("start")), atoi(c.Get("end")),
 			c.Get("omitref") == "1", c.Get("omitins") == "1", atoi(c.Get("threads")))
 		if err != nil {
 			return "", err
